@@ -1,6 +1,6 @@
 (* C07 — error stops and fatal exceptions are never backtracked over.  Statements only. *)
 From Coq Require Import List ZArith NArith Bool.
-From PP Require Import Model.Str Model.Results Model.Prog Model.Core Proofs.Walk Proofs.Fatal Gen.GenExc.
+From PP Require Import Model.Str Model.Results Model.Prog Model.Core Proofs.Walk Proofs.Fatal Proofs.FatalAlt Gen.GenExc.
 From PP Require Import Model.Entry Model.LR Proofs.LRFatal Proofs.LRTie.
 Import ListNotations.
 
@@ -148,3 +148,369 @@ Proof. exact lr_forward_fatal_escapes. Qed.
 (* the `except ParseException:` clauses of that loop, as the source has them now (Gen/GenMemo.v is regenerated from /repo) *)
 Theorem C07_lr_source_pinned : lr_source_text.
 Proof. exact lr_source_pinned. Qed.
+
+(* ============================================================================================================= *)
+(* Or, Each, stop_on, SkipTo: the elements that do not simply let a fatal exception through (Proofs/FatalAlt.v).    *)
+(* One-level statements: for EVERY handler `rec` (whatever the sub-expressions do), every input, every continuation *)
+(* `k` of parseImpl (with k := step_k e s d pl, `k (inl (IExc x))` is `Ret (Err x)`: the element raises x).         *)
+(* ============================================================================================================= *)
+
+(* ---- which of several collected fatal exceptions is raised (Or and Each share the code): the one with the greatest
+   location; among those the one whose element has the longest str(); among those the first in source order
+   (entries are (exception, len(str(parser_element))); the model's combined sort key needs len(str(..)) < 10^6) *)
+Theorem C07_pick_fatal : forall fatals fx,
+  Forall short_name fatals -> pick_fatal fatals = Some fx ->
+  exists l1 n l2, fatals = l1 ++ (fx, n) :: l2 /\
+    (forall y m, In (y, m) l1 -> (xloc y < xloc fx)%Z \/ (xloc y = xloc fx /\ m < n)) /\
+    (forall y m, In (y, m) l2 -> (xloc y < xloc fx)%Z \/ (xloc y = xloc fx /\ m <= n)).
+Proof. exact pick_fatal_spec. Qed.
+
+(* ---- Or.parseImpl = optional preParse, then `or_body` (first pass over all alternatives with do_actions=False and
+   raise_fatal=True, then `or_select`: re-parse of the matches longest first, or the collected fatal exception, or the
+   ParseException with the greatest location) *)
+Theorem C07_or_unfold : forall G a i es s pl d k,
+  impl G (Nary a i NOr es) s pl d k =
+  if forallb (fun c => callpre (attrs_of c)) es
+  then pre_parse (fail_of k) (Nary a i NOr es) s pl (or_body k (Nary a i NOr es) es s d)
+  else or_body k (Nary a i NOr es) es s d pl.
+Proof. exact impl_or. Qed.
+
+(* (1) every alternative fails in the first pass (ParseException, fatal, or IndexError) and at least one of them with a
+   fatal exception: the Or raises a fatal exception - the one pick_fatal chooses among those collected (each with its
+   parser_element set to the alternative) - never a ParseException, never a success *)
+Theorem C07_or_no_match : forall rec k e es s d loc os,
+  pass1_answers rec s loc es os ->
+  or_matches es os = [] ->
+  existsb fatal_out os = true ->
+  exists fx, pick_fatal (or_fatals es os) = Some fx /\ is_fatal (xk fx) = true /\
+             run rec (or_body k e es s d loc) = run rec (k (inl (IExc fx))).
+Proof. exact or_no_match. Qed.
+
+(* ('a' - 'b') ^ 'b' on "ac": ParseSyntaxException at 1 *)
+Example C07_or_no_match_instance :
+  let at_ id cp asl mi sw sl := {| nid := id; rsname := None; modalr := true; aslist := asl; skipws := sw; white := [9; 10; 13; 32]%N;
+                                   callpre := cp; mayidx := mi; custom := false; hasmsg := true; acts := []; calltry := false; slen := sl |} in
+  let lit c id := Tok (at_ id true false false true 3) [] (KLit [c]) in
+  let es := [Nary (at_ 2 true true true true 11) [] NAnd [lit 97%N 3; Tok (at_ 4 true false false false 1) [] KErrorStop; lit 98%N 5]; lit 98%N 5] in
+  let g := Nary (at_ 1 false true true true 19) [] NOr es in
+  let s := [97; 99]%N in
+  let rec := parse (step []) 10 in
+  exists os, pass1_answers rec s 0 es os /\ or_matches es os = [] /\ existsb fatal_out os = true /\
+             rec (mkargs g s 0 true true) = Some (Err (mkx XSyntax 1 (MNode 5 0) (Some 2))).
+Proof.
+  cbv zeta. eexists. split.
+  { repeat (apply Forall2_cons; [split; [vm_compute; reflexivity|reflexivity]|]). apply Forall2_nil. }
+  vm_compute. repeat split; reflexivity.
+Qed.
+
+(* two fatal exceptions: ('a' - 'b') ^ ('a' + 'c' - 'd') on "acx": the one with the greater location (2, of the second
+   alternative) is raised *)
+Example C07_or_no_match_two_fatals_instance :
+  let at_ id cp asl mi sw sl := {| nid := id; rsname := None; modalr := true; aslist := asl; skipws := sw; white := [9; 10; 13; 32]%N;
+                                   callpre := cp; mayidx := mi; custom := false; hasmsg := true; acts := []; calltry := false; slen := sl |} in
+  let lit c id := Tok (at_ id true false false true 3) [] (KLit [c]) in
+  let es := [Nary (at_ 2 true true true true 11) [] NAnd [lit 97%N 3; Tok (at_ 4 true false false false 1) [] KErrorStop; lit 98%N 5];
+             Nary (at_ 6 true true true true 15) [] NAnd [lit 97%N 3; lit 99%N 7; Tok (at_ 8 true false false false 1) [] KErrorStop; lit 100%N 9]] in
+  let g := Nary (at_ 1 false true true true 31) [] NOr es in
+  let s := [97; 99; 120]%N in
+  let rec := parse (step []) 10 in
+  exists os, pass1_answers rec s 0 es os /\ or_matches es os = [] /\ existsb fatal_out os = true /\
+             length (or_fatals es os) = 2 /\
+             rec (mkargs g s 0 true true) = Some (Err (mkx XSyntax 2 (MNode 9 0) (Some 6))).
+Proof.
+  cbv zeta. eexists. split.
+  { repeat (apply Forall2_cons; [split; [vm_compute; reflexivity|reflexivity]|]). apply Forall2_nil. }
+  vm_compute. repeat split; reflexivity.
+Qed.
+
+(* (2a) some alternative matches in the first pass, do_actions = False: the fatal exceptions raised by OTHER alternatives
+   are dropped (the documented exception to "never swallowed") - the Or answers with the longest match, the first of the
+   longest in source order *)
+Theorem C07_or_some_match_noact : forall rec k e es s loc os,
+  pass1_answers rec s loc es os ->
+  or_matches es os <> [] ->
+  exists c l r, In c es /\ rec (mkargs c s loc false true) = Some (Ok l r) /\
+    (forall l' c', In (l', c') (or_matches es os) -> l' <= l) /\
+    run rec (or_body k e es s false loc) = run rec (k (inr (l, RPR r))).
+Proof. exact or_some_match_noact. Qed.
+
+(* (2b) the same with do_actions = True.  Let c be the longest match of the first pass (first of the longest), ending at l1.
+   - c matches again (now with actions) at least as far: that is the Or's answer; the fatal exceptions are dropped;
+   - c now raises something that is not a ParseException - a fatal condition, a fatal parse action: the Or raises it at
+     once, whatever the other alternatives would do (a fatal exception of the second pass propagates);
+   - every match of the first pass fails with a ParseException when re-parsed with actions, so that no alternative matches
+     after all: the fatal exception collected in the first pass is raised now *)
+Theorem C07_or_some_match : forall rec k e es s loc os,
+  pass1_answers rec s loc es os ->
+  or_matches es os <> [] ->
+  exists c l1, In c es /\ (exists r, rec (mkargs c s loc false true) = Some (Ok l1 r)) /\
+    (forall l' c', In (l', c') (or_matches es os) -> l' <= l1) /\
+    (forall l2 r2, rec (mkargs c s loc true true) = Some (Ok l2 r2) -> l1 <= l2 ->
+       run rec (or_body k e es s true loc) = run rec (k (inr (l2, RPR r2)))) /\
+    (forall x, rec (mkargs c s loc true true) = Some (Err x) -> is_pe (xk x) = false ->
+       run rec (or_body k e es s true loc) = run rec (fail_of k x)) /\
+    (Forall (fun lc => exists x, rec (mkargs (snd lc) s loc true true) = Some (Err x) /\ is_pe (xk x) = true) (or_matches es os) ->
+       forall fx, pick_fatal (or_fatals es os) = Some fx ->
+       is_fatal (xk fx) = true /\ run rec (or_body k e es s true loc) = run rec (k (inl (IExc fx)))).
+Proof. exact or_pass2. Qed.
+
+(* the second pass as a whole: a fatal answer to ANY call made with do_actions = True (a re-parse of the second pass, an
+   ignore expression during preParse) makes the Or's answer fatal *)
+Theorem C07_or_pass2_never_swallowed : forall (G : env) rec a i es s pl d o,
+  run_seen_w a_do rec (impl G (Nary a i NOr es) s pl d (step_k (Nary a i NOr es) s d pl)) false = Some (true, o) ->
+  fatal_out o = true.
+Proof. exact or_pass2_never_swallowed. Qed.
+
+(* ('a' - 'b') ^ 'a' on "ac": the first alternative raises ParseSyntaxException at 1, the second matches: the Or returns
+   ['a'];  ('a' - 'b') ^ ('a' + 'c') on "ac": returns ['a', 'c'] *)
+Example C07_or_some_match_instance :
+  let at_ id cp asl mi sw sl := {| nid := id; rsname := None; modalr := true; aslist := asl; skipws := sw; white := [9; 10; 13; 32]%N;
+                                   callpre := cp; mayidx := mi; custom := false; hasmsg := true; acts := []; calltry := false; slen := sl |} in
+  let lit c id := Tok (at_ id true false false true 3) [] (KLit [c]) in
+  let stop_ab := Nary (at_ 2 true true true true 11) [] NAnd [lit 97%N 3; Tok (at_ 4 true false false false 1) [] KErrorStop; lit 98%N 5] in
+  let es1 := [stop_ab; lit 97%N 3] in
+  let es2 := [stop_ab; Nary (at_ 6 true true true true 9) [] NAnd [lit 97%N 3; lit 99%N 7]] in
+  let s := [97; 99]%N in
+  let rec := parse (step []) 10 in
+  (exists os, pass1_answers rec s 0 es1 os /\ or_matches es1 os <> [] /\ existsb fatal_out os = true /\
+     exists r, rec (mkargs (Nary (at_ 1 false true true true 19) [] NOr es1) s 0 true true) = Some (Ok 1 r) /\ pr_as_list r = [TStr [97%N]]) /\
+  (exists os, pass1_answers rec s 0 es2 os /\ or_matches es2 os <> [] /\ existsb fatal_out os = true /\
+     exists r, rec (mkargs (Nary (at_ 1 false true true true 25) [] NOr es2) s 0 true true) = Some (Ok 2 r) /\
+               pr_as_list r = [TStr [97%N]; TStr [99%N]]).
+Proof.
+  cbv zeta. split; eexists; (split;
+    [repeat (apply Forall2_cons; [split; [vm_compute; reflexivity|reflexivity]|]); apply Forall2_nil|]);
+  (split; [vm_compute; discriminate|]); (split; [vm_compute; reflexivity|]); eexists; vm_compute; split; reflexivity.
+Qed.
+
+(* a fatal exception of the second pass: Word("ab").add_condition(len >= 3, fatal=True) ^ 'a' on "ab": both alternatives
+   match in the first pass (no actions there); the re-parse of the longer one raises ParseFatalException, and that is the
+   Or's answer although 'a' matches *)
+Example C07_or_pass2_fatal_instance :
+  let at_ id cp asl mi sw sl ac := {| nid := id; rsname := None; modalr := true; aslist := asl; skipws := sw; white := [9; 10; 13; 32]%N;
+                                   callpre := cp; mayidx := mi; custom := false; hasmsg := true; acts := ac; calltry := false; slen := sl |} in
+  let es := [Tok (at_ 2 true false false true 6 [ACond 3 true 7]) [] (KWord [97; 98]%N [97; 98]%N 1 None false false true);
+             Tok (at_ 3 true false false true 3 []) [] (KLit [97%N])] in
+  let g := Nary (at_ 1 false false true true 14 []) [] NOr es in
+  let s := [97; 98]%N in
+  let rec := parse (step []) 10 in
+  exists os x, pass1_answers rec s 0 es os /\ length (or_matches es os) = 2 /\
+    rec (mkargs (hd g es) s 0 true true) = Some (Err x) /\ is_fatal (xk x) = true /\
+    rec (mkargs g s 0 true true) = Some (Err x).
+Proof.
+  cbv zeta. eexists. eexists. split.
+  { repeat (apply Forall2_cons; [split; [vm_compute; reflexivity|reflexivity]|]). apply Forall2_nil. }
+  split; [vm_compute; reflexivity|]. split; [vm_compute; reflexivity|]. split; vm_compute; reflexivity.
+Qed.
+
+(* the match of the first pass is lost in the second: ('a' - 'b') ^ Word("ab").add_condition(len >= 3) on "ac": the Word
+   matches "a" without actions, its condition fails with them; nothing matches and the ParseSyntaxException is raised *)
+Example C07_or_match_lost_instance :
+  let at_ id cp asl mi sw sl ac := {| nid := id; rsname := None; modalr := true; aslist := asl; skipws := sw; white := [9; 10; 13; 32]%N;
+                                   callpre := cp; mayidx := mi; custom := false; hasmsg := true; acts := ac; calltry := false; slen := sl |} in
+  let lit c id := Tok (at_ id true false false true 3 []) [] (KLit [c]) in
+  let es := [Nary (at_ 2 true true true true 11 []) [] NAnd [lit 97%N 3; Tok (at_ 4 true false false false 1 []) [] KErrorStop; lit 98%N 5];
+             Tok (at_ 6 true false false true 6 [ACond 3 false 7]) [] (KWord [97; 98]%N [97; 98]%N 1 None false false true)] in
+  let g := Nary (at_ 1 false true true true 22 []) [] NOr es in
+  let s := [97; 99]%N in
+  let rec := parse (step []) 10 in
+  exists os, pass1_answers rec s 0 es os /\ or_matches es os <> [] /\
+    Forall (fun lc => exists x, rec (mkargs (snd lc) s 0 true true) = Some (Err x) /\ is_pe (xk x) = true) (or_matches es os) /\
+    rec (mkargs g s 0 true true) = Some (Err (mkx XSyntax 1 (MNode 5 0) (Some 2))).
+Proof.
+  cbv zeta. eexists. split.
+  { repeat (apply Forall2_cons; [split; [vm_compute; reflexivity|reflexivity]|]). apply Forall2_nil. }
+  split; [vm_compute; discriminate|]. split; [|vm_compute; reflexivity].
+  match goal with |- Forall _ ?l => let l' := eval vm_compute in l in change l with l' end.
+  apply Forall_cons; [|apply Forall_nil]. eexists. split; [vm_compute; reflexivity|reflexivity].
+Qed.
+
+(* ---- Each.parseImpl = the `while keepMatching` loop (each_loop: one each_round per turn) followed by each_final
+   (raise the collected fatal exception / "Missing one or more required elements" / the second pass each_go2) *)
+Theorem C07_each_unfold : forall G a i info es s pl d k,
+  impl G (Nary a i (NEach info) es) s pl d k =
+  each_loop (fail_of k) es s (each_fuel (length s) (each_reqd es info) (each_opts es info) (each_multis es info)) pl
+            (each_reqd es info) (each_opts es info) (each_multis es info) [] (each_final k es info s pl d).
+Proof. exact impl_each. Qed.
+
+(* (3a) a round (at any stage of the loop: tl, the operands still required / optional, the repeatable ones) in which no operand
+   matches - each fails with a ParseException or a fatal exception - and at least one raised a fatal exception: the loop
+   ends and Each raises the fatal exception pick_fatal chooses among those of THIS round *)
+Theorem C07_each_no_match : forall rec k es info s loc d f tl reqd opt multis mo os,
+  round_ans rec s (reqd ++ opt ++ multis) tl os ->
+  existsb is_ok os = false ->
+  existsb fatal_out os = true ->
+  exists fx, pick_fatal (or_fatals (map ee_e (reqd ++ opt ++ multis)) os) = Some fx /\ is_fatal (xk fx) = true /\
+    run rec (each_loop (fail_of k) es s (S f) tl reqd opt multis mo (each_final k es info s loc d)) = run rec (k (inl (IExc fx))).
+Proof. exact each_no_match. Qed.
+
+(* (3b) a round in which some operand matches: the loop goes round again (or spins, when nothing changed) from the state
+   each_round_sum computes from the END POSITIONS OF THE MATCHES alone (`map ok_end os`): the fatal exceptions collected in
+   this round are dropped by `fatals.clear()`, and a fatal failure is treated exactly like a ParseException *)
+Theorem C07_each_some_match : forall rec fail es s f tl reqd opt multis mo K os tl' reqd' opt' mo',
+  round_ans rec s (reqd ++ opt ++ multis) tl os ->
+  existsb is_ok os = true ->
+  each_round_sum es (reqd ++ opt ++ multis) (map ok_end os) tl reqd opt mo = (tl', reqd', opt', mo') ->
+  run rec (each_loop fail es s (S f) tl reqd opt multis mo K) =
+  if Nat.eqb tl' tl && Nat.eqb (length reqd') (length reqd) && Nat.eqb (length opt') (length opt)
+  then Some Div
+  else run rec (each_loop fail es s f tl' reqd' opt' multis mo' K).
+Proof. exact each_round_with_match. Qed.
+
+(* the second pass of Each (and the ignore expressions): a fatal answer to any call made with do_actions = True propagates;
+   and whatever do_actions is, a fatal answer to any call of the second pass `for e in matchOrder` does *)
+Theorem C07_each_pass2_never_swallowed : forall (G : env) rec a i info es s pl d o,
+  run_seen_w a_do rec (impl G (Nary a i (NEach info) es) s pl d (step_k (Nary a i (NEach info) es) s d pl)) false = Some (true, o) ->
+  fatal_out o = true.
+Proof. exact each_pass2_never_swallowed. Qed.
+
+Theorem C07_each_go2_never_swallowed : forall rec e s d pl dd mo loc acc o,
+  run_seen rec (each_go2 (step_k e s d pl) s dd mo loc acc) false = Some (true, o) -> fatal_out o = true.
+Proof. exact each_go2_never_swallowed. Qed.
+
+(* ('a' - 'b') & 'c' on "ad": first round, nothing matches, the first operand raised ParseSyntaxException at 1: raised.
+   ('a' - 'b') & ('a' + 'c') on "ac ab": in the first round the first operand raises ParseSyntaxException at 1 and the second
+   matches "ac"; the exception is dropped, the second round matches "ab": the parse succeeds *)
+Example C07_each_instance :
+  let at_ id cp asl mi sw sl := {| nid := id; rsname := None; modalr := true; aslist := asl; skipws := sw; white := [9; 10; 13; 32]%N;
+                                   callpre := cp; mayidx := mi; custom := false; hasmsg := true; acts := []; calltry := false; slen := sl |} in
+  let lit c id := Tok (at_ id true false false true 3) [] (KLit [c]) in
+  let stop_ab := Nary (at_ 2 true true true true 11) [] NAnd [lit 97%N 3; Tok (at_ 4 true false false false 1) [] KErrorStop; lit 98%N 5] in
+  let info := [(false, (0, 0)); (false, (2, 2))] in
+  let es1 := [stop_ab; lit 99%N 6] in
+  let es2 := [stop_ab; Nary (at_ 6 true true true true 9) [] NAnd [lit 97%N 3; lit 99%N 7]] in
+  let rec := parse (step []) 10 in
+  (exists os, round_ans rec [97; 100]%N (each_reqd es1 info ++ each_opts es1 info ++ each_multis es1 info) 0 os /\
+     existsb is_ok os = false /\ existsb fatal_out os = true /\
+     rec (mkargs (Nary (at_ 1 false true true true 19) [] (NEach info) es1) [97; 100]%N 0 true true) = Some (Err (mkx XSyntax 1 (MNode 5 0) (Some 2)))) /\
+  (exists os, round_ans rec [97; 99; 32; 97; 98]%N (each_reqd es2 info ++ each_opts es2 info ++ each_multis es2 info) 0 os /\
+     existsb is_ok os = true /\ existsb fatal_out os = true /\
+     exists r, rec (mkargs (Nary (at_ 1 false true true true 25) [] (NEach info) es2) [97; 99; 32; 97; 98]%N 0 true true) = Some (Ok 5 r) /\
+               pr_as_list r = [TStr [97%N]; TStr [99%N]; TStr [97%N]; TStr [98%N]]).
+Proof.
+  cbv zeta. split.
+  - eexists. split.
+    { match goal with |- round_ans _ _ ?l _ _ => let l1 := eval vm_compute in l in change l with l1 end. eapply RA_err; [vm_compute; reflexivity|reflexivity|]. eapply RA_err; [vm_compute; reflexivity|reflexivity|]. apply RA_nil. }
+    vm_compute. repeat split; reflexivity.
+  - eexists. split.
+    { match goal with |- round_ans _ _ ?l _ _ => let l1 := eval vm_compute in l in change l with l1 end. eapply RA_err; [vm_compute; reflexivity|reflexivity|]. eapply RA_ok; [vm_compute; reflexivity|]. apply RA_nil. }
+    split; [reflexivity|]. split; [reflexivity|]. eexists. vm_compute. split; reflexivity.
+Qed.
+
+(* ---- stop_on.  _MultipleMatch.parseImpl's loop `rep_go` = the sentinel check (check_ender: not_ender.try_parse(instring, loc))
+   then, unless that raised, rep_round: skip ignorables, parse the body, go round again *)
+Theorem C07_rep_go_unfold : forall k foe e body ne s d f loc acc,
+  rep_go k foe e body ne s d (S f) loc acc =
+  check_ender ne s loc (fun r => match r with
+                                 | Some o => rep_stop k foe loc acc o
+                                 | None => rep_round k foe e body ne s d f loc acc
+                                 end).
+Proof. exact rep_go_unfold. Qed.
+
+(* (4a) the sentinel c (not_ender = ~c, a NotAny without ignore expressions or parse actions, evaluated by the handler according
+   to its own `step`) raises a fatal exception where the check is made: "the sentinel is not here" - the repetition goes on and
+   tries its body; only negative lookahead treats a fatal exception as a non-match *)
+Theorem C07_stop_on : forall (G : env) rec k foe e body an c s d f loc acc x,
+  acts an = [] ->
+  rec (mkargs (Enh an [] ENot c) s loc false true) = run rec (step G (mkargs (Enh an [] ENot c) s loc false true)) ->
+  rec (mkargs c s (ender_loc an s loc) false true) = Some (Err x) -> is_fatal (xk x) = true ->
+  run rec (rep_go k foe e body (Some (Enh an [] ENot c)) s d (S f) loc acc) =
+  run rec (rep_round k foe e body (Some (Enh an [] ENot c)) s d f loc acc).
+Proof. exact stop_on_fatal_sentinel. Qed.
+
+(* (4b) nor can the check itself let one out: a fatal answer of `not_ender.try_parse(instring, loc)` (raise_fatal defaults to
+   False) arrives as a ParseException, i.e. "the sentinel is here": the loop ends with what it has *)
+Theorem C07_stop_on_check_never_fatal : forall rec k foe e body ne s d f loc acc x,
+  rec (mkargs ne s loc false true) = Some (Err x) -> is_fatal (xk x) = true ->
+  run rec (rep_go k foe e body (Some ne) s d (S f) loc acc) = run rec (k (inr (loc, RPR acc))).
+Proof. exact stop_on_check_never_fatal. Qed.
+
+(* (4c) everything else a repetition with stop_on calls - its body, its ignore expressions - is transparent: whatever set of
+   calls is watched, provided no sentinel check is in it, a fatal answer to a watched call makes the repetition's answer fatal *)
+Theorem C07_stop_on_body_never_swallowed : forall (G : env) watch rec a i z body ne s pl d o,
+  (forall l, watch (mkargs ne s l false true) = false) ->
+  run_seen_w watch rec (impl G (Rep a i z body (Some ne)) s pl d (step_k (Rep a i z body (Some ne)) s d pl)) false = Some (true, o) ->
+  fatal_out o = true.
+Proof. exact rep_stop_on_never_swallowed. Qed.
+
+(* OneOrMore(Word("ab"), stop_on = 'b' - 'c') on "a b x": after "a" the sentinel check at 1 runs into the error stop
+   ('b' found, 'c' missing: ParseSyntaxException at 4); the repetition continues and also takes "b": ['a', 'b'], end 3.
+   (With "a b c" the sentinel matches and the result is ['a'].)  And with the error stop in the BODY, OneOrMore('a' - 'b',
+   stop_on = 'c') on "ab ax": ParseSyntaxException at 4. *)
+Example C07_stop_on_instance :
+  let at_ id cp asl mi sw sl hm := {| nid := id; rsname := None; modalr := true; aslist := asl; skipws := sw; white := [9; 10; 13; 32]%N;
+                                   callpre := cp; mayidx := mi; custom := false; hasmsg := hm; acts := []; calltry := false; slen := sl |} in
+  let lit c id := Tok (at_ id true false false true 3 true) [] (KLit [c]) in
+  let sentinel := Nary (at_ 3 true true true true 13 true) [] NAnd [lit 98%N 5; Tok (at_ 6 true false false false 1 true) [] KErrorStop; lit 99%N 7] in
+  let an := at_ 2 true true true false 16 true in
+  let body := Tok (at_ 8 true false false true 6 true) [] (KWord [97; 98]%N [97; 98]%N 1 None false false true) in
+  let g := Rep (at_ 1 true true false true 11 false) [] false body (Some (Enh an [] ENot sentinel)) in
+  let s := [97; 32; 98; 32; 120]%N in
+  let rec := parse (step []) 10 in
+  acts an = [] /\
+  rec (mkargs (Enh an [] ENot sentinel) s 1 false true) = run rec (step [] (mkargs (Enh an [] ENot sentinel) s 1 false true)) /\
+  (exists x, rec (mkargs sentinel s (ender_loc an s 1) false true) = Some (Err x) /\ is_fatal (xk x) = true /\ xloc x = 4%Z) /\
+  (exists r, rec (mkargs g s 0 true true) = Some (Ok 3 r) /\ pr_as_list r = [TStr [97%N]; TStr [98%N]]) /\
+  (exists r, rec (mkargs g [97; 32; 98; 32; 99]%N 0 true true) = Some (Ok 1 r) /\ pr_as_list r = [TStr [97%N]]) /\
+  (let stop_ab := Nary (at_ 12 true true true true 11 true) [] NAnd [lit 97%N 13; Tok (at_ 14 true false false false 1 true) [] KErrorStop; lit 98%N 15] in
+   let g2 := Rep (at_ 1 true true true true 11 false) [] false stop_ab (Some (Enh an [] ENot (lit 99%N 7))) in
+   exists m el, rec (mkargs g2 [97; 98; 32; 97; 120]%N 0 true true) = Some (Err (mkx XSyntax 4 m el))).
+Proof.
+  cbv zeta. split; [reflexivity|]. split; [vm_compute; reflexivity|].
+  split; [eexists; vm_compute; repeat split; reflexivity|].
+  split; [eexists; vm_compute; split; reflexivity|].
+  split; [eexists; vm_compute; split; reflexivity|].
+  eexists. eexists. vm_compute. reflexivity.
+Qed.
+
+(* ---- SkipTo.  One position of the scan = the fail_on test, then skipto_try: the ignorer, then the target *)
+Theorem C07_skipto_scan_unfold : forall fail f e target ignorer failon s loc0 tmploc K,
+  skipto_scan fail (S f) e target ignorer failon s loc0 tmploc K =
+  if Nat.ltb (length s) tmploc then fail (mkx XParse (Z.of_nat loc0) (MNode (nid (attrs_of e)) 0) (Some (nid (attrs_of e))))
+  else match failon with
+       | Some fo => can_parse_next fail fo s tmploc false
+                      (fun b => if b then K tmploc else skipto_try fail f e target ignorer failon s loc0 tmploc K)
+       | None => skipto_try fail f e target ignorer failon s loc0 tmploc K
+       end.
+Proof. exact skipto_scan_unfold. Qed.
+
+(* (5a) fail_on is a negative lookahead: raising a fatal exception = not matching here; the scan goes on with this position *)
+Theorem C07_skipto_fail_on : forall rec fail f e target ignorer fo s loc0 tmploc K x,
+  tmploc <= length s ->
+  rec (mkargs fo s tmploc false true) = Some (Err x) -> is_fatal (xk x) = true ->
+  run rec (skipto_scan fail (S f) e target ignorer (Some fo) s loc0 tmploc K) =
+  run rec (skipto_try fail f e target ignorer (Some fo) s loc0 tmploc K).
+Proof. exact skipto_failon_fatal. Qed.
+
+(* (5b) so is the ignorer (`except ParseBaseException: break`): a fatal exception ends the skipping of ignorables here *)
+Theorem C07_skipto_ignorer : forall rec fail f ig s tl K x,
+  rec (mkargs ig s tl false true) = Some (Err x) -> is_fatal (xk x) = true ->
+  run rec (skipto_ign fail (S f) ig s tl K) = run rec (K tl).
+Proof. exact skipto_ign_fatal. Qed.
+
+(* (5c) the target is not: parsed with callPreParse = False in the scan and (include=True) once more at the end, a fatal
+   answer to any of these calls makes SkipTo's answer fatal *)
+Theorem C07_skipto_target_never_swallowed : forall (G : env) rec a i target incl igs failon s pl d o,
+  run_seen_w (fun ar => negb (a_pre ar)) rec
+             (impl G (Skip a i target incl igs failon) s pl d (step_k (Skip a i target incl igs failon) s d pl)) false = Some (true, o) ->
+  fatal_out o = true.
+Proof. exact skipto_target_never_swallowed. Qed.
+
+(* SkipTo('x', fail_on = 'a' - 'b') on "ac x": fail_on raises ParseSyntaxException at 1 when tried at 0; the scan goes on
+   and returns ['ac '].  SkipTo('a' - 'b') on "x ac": ParseSyntaxException at 3. *)
+Example C07_skipto_instance :
+  let at_ id cp asl mi sw sl := {| nid := id; rsname := None; modalr := true; aslist := asl; skipws := sw; white := [9; 10; 13; 32]%N;
+                                   callpre := cp; mayidx := mi; custom := false; hasmsg := true; acts := []; calltry := false; slen := sl |} in
+  let lit c id := Tok (at_ id true false false true 3) [] (KLit [c]) in
+  let stop_ab := Nary (at_ 2 true true true true 11) [] NAnd [lit 97%N 4; Tok (at_ 5 true false false false 1) [] KErrorStop; lit 98%N 6] in
+  let g := Skip (at_ 1 true false false true 12) [] (lit 120%N 7) false [] (Some stop_ab) in
+  let s := [97; 99; 32; 120]%N in
+  let rec := parse (step []) 10 in
+  (exists x, rec (mkargs stop_ab s 0 false true) = Some (Err x) /\ is_fatal (xk x) = true) /\
+  (exists r, rec (mkargs g s 0 true true) = Some (Ok 3 r) /\ pr_as_list r = [TStr [97; 99; 32]%N]) /\
+  (exists m el, rec (mkargs (Skip (at_ 1 true false false true 12) [] stop_ab false [] None) [120; 32; 97; 99]%N 0 true true)
+                = Some (Err (mkx XSyntax 3 m el))).
+Proof.
+  cbv zeta. split; [eexists; vm_compute; split; reflexivity|].
+  split; [eexists; vm_compute; split; reflexivity|]. eexists. eexists. vm_compute. reflexivity.
+Qed.
